@@ -7,6 +7,8 @@ import (
 	"strconv"
 	"strings"
 
+	"github.com/paulsonkoly/calc/types/bytecode"
+
 	"verif/core"
 	"verif/gen"
 	"verif/model"
@@ -49,7 +51,13 @@ type repFrame struct {
 	Name string
 	Args []string
 }
+type repLine struct {
+	IP   int
+	Hex  uint64
+	Text string // opcode and operands as printed
+}
 type report struct {
+	Window   []repLine
 	Class    string
 	MarkIP   int
 	MarkOp   string
@@ -60,6 +68,7 @@ type report struct {
 }
 
 var (
+	lineRE  = regexp.MustCompile(`^(?:-->|   ) (\d+): 0X([0-9A-F]+) : ([^;]*?) ?(?:;.*)?$`)
 	markRE  = regexp.MustCompile(`^--> (\d+): 0X[0-9A-F]+ : ([A-Z0-9]+) ?(.*)$`)
 	frameRE = regexp.MustCompile(`^IP: (\d+) ([a-z]+)\(\) args: ?(.*)$`)
 	argRE   = regexp.MustCompile(`arg\[(\d+)\]: `)
@@ -75,6 +84,11 @@ func parseReport(rep string) (report, error) {
 	r.MarkIP = -1
 	inStack := false
 	for _, l := range lines[1:] {
+		if m := lineRE.FindStringSubmatch(l); m != nil && len(r.Contexts) == 0 {
+			ip, _ := strconv.Atoi(m[1])
+			hx, _ := strconv.ParseUint(m[2], 16, 64)
+			r.Window = append(r.Window, repLine{ip, hx, strings.TrimSpace(m[3])})
+		}
 		switch {
 		case strings.HasPrefix(l, "--> "):
 			m := markRE.FindStringSubmatch(l)
@@ -129,11 +143,68 @@ var opFamily = map[string][]string{
 	"index": {"IX1"}, "slice": {"IX2"}, "assign": {"MOV"}, "call": {"CALL"}, "cond": {"JMPF", "JMPT"}, "aton": {"ATON"}, "read": {"READ"},
 }
 
+// operandText renders one operand from the kind and address the VM itself decodes and executes with.
+func operandText(kind uint64, addr int) string {
+	switch kind {
+	case bytecode.AddrDS:
+		return fmt.Sprintf("DS[%d]", addr)
+	case bytecode.AddrCls:
+		return fmt.Sprintf("CLS[%d]", addr)
+	case bytecode.AddrLcl:
+		return fmt.Sprintf("LCL[%d]", addr)
+	case bytecode.AddrGbl:
+		return fmt.Sprintf("GBL[%d]", addr)
+	case bytecode.AddrStck:
+		return "STCK"
+	case bytecode.AddrTmp:
+		return "TMP"
+	case bytecode.AddrImm:
+		return fmt.Sprint(addr)
+	}
+	return ""
+}
+
+// checkWindow: the instructions listed around the failure must be the code that is really there
+// (consecutive indices around the failing one, the same 64-bit words as the code segment), and each
+// line's opcode and operands must read as the opcode, operand kinds and addresses the VM decodes
+// when it executes that word (jump distances included, with their sign).
+func checkWindow(rp report, cs []bytecode.Type, failIP int) (clause, detail string) {
+	if len(rp.Window) == 0 {
+		return "report-window", "no instruction listed"
+	}
+	for k, ln := range rp.Window {
+		if k > 0 && ln.IP != rp.Window[k-1].IP+1 {
+			return "report-window", fmt.Sprintf("listed instruction indices are not consecutive: %d after %d", ln.IP, rp.Window[k-1].IP)
+		}
+		if ln.IP < 0 || ln.IP >= len(cs) || ln.IP < failIP-3 || ln.IP > failIP+3 {
+			return "report-window", fmt.Sprintf("listed instruction %d is not around the failing instruction %d", ln.IP, failIP)
+		}
+		in := cs[ln.IP]
+		if uint64(in) != ln.Hex {
+			return "report-window", fmt.Sprintf("instruction %d is %#016X in the code segment, the report prints %#016X", ln.IP, uint64(in), ln.Hex)
+		}
+		var parts []string
+		parts = append(parts, fmt.Sprint(in.OpCode()))
+		for _, t := range []string{operandText(in.Src2(), in.Src2Addr()), operandText(in.Src1(), in.Src1Addr()), operandText(in.Src0(), in.Src0Addr())} {
+			if t != "" {
+				parts = append(parts, t)
+			}
+		}
+		if want := strings.Join(parts, " "); want != strings.Join(strings.Fields(ln.Text), " ") {
+			return "report-disassembly", fmt.Sprintf("instruction %d executes as %q, the report prints %q", ln.IP, want, ln.Text)
+		}
+	}
+	return "", ""
+}
+
 // checkReport compares a real outcome's report with the model's error.
-func checkReport(o sess.Outcome, re *model.RunError) (clause, detail string) {
+func checkReport(o sess.Outcome, re *model.RunError, cs []bytecode.Type) (clause, detail string) {
 	rp, err := parseReport(o.Report)
 	if err != nil {
 		return "report-unparsable", err.Error() + "\n" + trunc(o.Report, 600)
+	}
+	if c, d := checkWindow(rp, cs, o.FailIP); c != "" {
+		return c, d + "\n" + trunc(o.Report, 500)
 	}
 	if rp.GaveUp {
 		return "report-gave-up", trunc(o.Report, 800)
@@ -293,6 +364,13 @@ var c19Sites = []c19Site{
 		}
 		return []string{"ge = (c) -> {\nyield 1\nz = " + e("c") + "\nyield 2\n}", "uw = (c, w) -> {\n" + pad + "for q <- fromto(0, 2) {\nw = w + q\n}\nfor e <- ge(c) {\nw = w + e\n}\nw\n}"}, "uw(" + t + ", 10)"
 	}, true},
+	// parameter values that would mean something to a formatting routine
+	{"string-parameters-with-percent", func(e func(string) string, t string) ([]string, string) {
+		return []string{"fp = (c, label, note) -> " + e("c"), "fq = (c, label) -> fp(c, label + \"%s\", \"50% off\")"}, "fq(" + t + ", \"100%d\")"
+	}, true},
+	{"generator-with-percent-parameters", func(e func(string) string, t string) ([]string, string) {
+		return []string{"ge = (c, tag) -> {\nyield 1\nz = " + e("c") + "\nyield 2\n}", "us = (c, tag) -> {\nw = 0\nfor e <- ge(c, [tag + \"%v\", \"%!\"]) {\nw = w + e\n}\nw\n}"}, "us(" + t + ", \"%d%%\")"
+	}, true},
 	{"top-level-loop-generator", func(e func(string) string, t string) ([]string, string) {
 		return []string{"ge = (c) -> {\nyield 1\nz = " + e("c") + "\nyield 2\n}"}, "for tv <- ge(" + t + ") {\ntw = tv\n}"
 	}, true},
@@ -363,7 +441,7 @@ func runC19(defs []string, stmt string, stdin string, repl bool, r *core.Result,
 		r.Violation = &core.Violation{Clause: "output-before-failure", Detail: fmt.Sprintf("real printed %q before failing, model %q", o.Out, m.Out), History: h}
 		return
 	}
-	if c, d := checkReport(o, m.RE); c != "" {
+	if c, d := checkReport(o, m.RE, s.CS); c != "" {
 		r.Violation = &core.Violation{Clause: c, Detail: d, History: h}
 		return
 	}
